@@ -82,8 +82,9 @@ inductive Phase where
   | queued
   /-- a thread is blocked in `stream.read` on an incomplete frame of this client -/
   | blocked
-  /-- pool: a worker has closed the connection (socket closed: the descriptor NUMBER is free again) and is still inside
-  the service's `on_disconnect`; `_drop_connection(fd)` has not run yet, the `fd_to_conn` entry is still there -/
+  /-- the thread that served this client has closed the connection (socket closed: the descriptor NUMBER is free again) and
+  is still inside the service's `on_disconnect`.  Pool: a worker; `_drop_connection(fd)` has not run yet, the `fd_to_conn`
+  entry is still there.  Other kinds: the client's own thread / child; the closed socket object is still in `clients` -/
   | closing
   /-- the server has finished with this client -/
   | done
@@ -190,6 +191,14 @@ def release (c : Cli) : Cli :=
 
 def endServe (c : Cli) : Cli := release (closeConn c)
 
+/-- the end of a connection served by a thread / child of its own (threaded, one-shot, forking): `Connection.close` →
+`_cleanup` closes the channel (the descriptor is free, the client sees end-of-stream) and calls the service's
+`on_disconnect`; with a hook that blocks the thread is still in there: the `finally` of
+`_authenticate_and_serve_client` (`self.clients.discard(sock)`) has not run, the socket object — closed — is still
+tracked, a forked child is still alive -/
+def endServeD (c : Cli) : Cli :=
+  if c.slowHook then { closeConn c with srvFd := false, shut := true, phase := .closing, inbox := [] } else endServe c
+
 /-- a request of a well-behaved client is executed on its own connection -/
 def answer (c : Cli) (seq : Nat) (r : ReqKind) (nextObj : Nat) : Cli × Nat :=
   match r with
@@ -210,14 +219,14 @@ def consume : List Item → Cli → Nat → Cli × Nat
   | .empty :: rest, c, n => consume rest c n
   -- exception out of `serve_all` (its `finally` closes the connection), out of `_serve_client`, logged and
   -- re-raised by `_authenticate_and_serve_client` whose `finally` shuts the socket down and untracks it
-  | .bad :: _, c, n => (endServe c, n)
+  | .bad :: _, c, n => (endServeD c, n)
   -- `_handle_close` → `_cleanup`; the reply hits the closed channel: EOFError, swallowed by `serve_all`
-  | .bye :: _, c, n => (endServe c, n)
+  | .bye :: _, c, n => (endServeD c, n)
   -- `stream.read` → EOFError → `serve` closes and re-raises, swallowed by `serve_all`
-  | .fin :: _, c, n => (endServe c, n)
+  | .fin :: _, c, n => (endServeD c, n)
   -- blocked in `stream.read`; whatever follows an incomplete frame can only be the end of the stream
   | .part :: rest, c, n =>
-    if rest.isEmpty then ({ c with inbox := [], phase := .blocked }, n) else (endServe c, n)
+    if rest.isEmpty then ({ c with inbox := [], phase := .blocked }, n) else (endServeD c, n)
 
 /-- `ThreadPoolServer._serve_requests` by a worker that took this client's descriptor from the queue
 (batches are re-queued and taken again: at quiescence the same) -/
@@ -261,9 +270,10 @@ def St.mapCli (s : St) (f : Cli → Cli) : St := { s with cli := fun j => f (s.c
 /-- what `c.shutdown(SHUT_RDWR); c.close()` on a tracked socket does to the thread using it -/
 def shutOne (c : Cli) : Cli :=
   match c.phase with
-  | .idle => endServe c
-  | .blocked => endServe c
-  | .queued => endServe c
+  -- its thread reads end-of-stream and closes the connection (and may stay inside a blocking `on_disconnect`)
+  | .idle => endServeD c
+  | .blocked => endServeD c
+  | .queued => endServeD c
   -- the authenticator reads end-of-stream: AuthenticationError, connection rejected
   | .authing => release c
   | _ => c
@@ -397,6 +407,11 @@ def poolRelease (s : St) (k : Nat) : St :=
          | none => s.set k { s.cli k with phase := .done, inFd := false, slowHook := false }) with
       blocked := rm k s.blocked }
 
+/-- threaded / one-shot / forking: the blocking `on_disconnect` of client `k` returns; its thread runs the `finally`
+clauses it had not reached (untrack; one-shot: `self.close()`), a forked child exits -/
+def dedRelease (s : St) (k : Nat) : St :=
+  afterEnd (s.set k { s.cli k with phase := .done, child := false, slowHook := false }) k
+
 /-- `self.clients.clear()` -/
 def untrackAll (s : St) : St := s.mapCli (fun c => { c with tracked := false })
 
@@ -458,7 +473,9 @@ def wake (s : St) (k : Nat) : St :=
   | .idle => if s.cfg.kind = .pool then poolWake s k else runDedicated s k
   | .blocked =>
     if (s.cli k).inbox.contains .fin then
-      (if s.cfg.kind = .pool then poolUnblock s k else afterEnd (s.set k (endServe (s.cli k))) k)
+      (if s.cfg.kind = .pool then poolUnblock s k
+       else if (s.cli k).slowHook then s.set k (endServeD (s.cli k))
+       else afterEnd (s.set k (endServe (s.cli k))) k)
     else s
   | .authing =>
     if (s.cli k).inbox.contains .fin then
@@ -560,8 +577,9 @@ def step (s : St) : Op → Except Err (St × Obs)
             { ((s.set j { s.cli j with inFd := false, usurper := some k }).set k
                 { cred := .good, phase := .backlog, clientOpen := true }) with ids := s.ids ++ [k] }, .ok)
   | .releaseHook k =>
-    if s.cfg.kind != .pool || (s.cli k).phase != .closing then .error .valueError
-    else .ok (poolRelease s k, .none)
+    if (s.cli k).phase != .closing then .error .valueError
+    else if s.cfg.kind = .pool then .ok (poolRelease s k, .none)
+    else .ok (dedRelease s k, .none)
   | .serverClose =>
     if s.cfg.kind = .pool then
       (match poolClose s with
